@@ -259,7 +259,7 @@ fn one(report: &mut Report, a: &State, b: &State, cfg: Cfg, backend: BackendKind
             for (oracle, witness, detail) in bad {
                 report.violation(oracle, witness, case(), detail, ordinal);
             }
-            if nt && messages >= 4 {
+            if nt && (messages >= 4 || report.samples.is_empty()) {
                 report.sample(|| {
                     json!({"a": a.canon.iter().map(|s| s.to_string()).collect::<Vec<_>>(),
                            "b": b.canon.iter().map(|s| s.to_string()).collect::<Vec<_>>(),
